@@ -41,7 +41,7 @@ def node(depth, extended_only=False):
     tagset = st.sets(st.sampled_from(H.TAGS), max_size=2).map(sorted)
     opts = [
         st.builds(lambda c: {"a": "ETOD", "child": c}, anykid),
-        st.builds(lambda a, b: {"a": "Multi", "children": [a, b]}, anykid, anykid),
+        st.builds(lambda kids: {"a": "Multi", "children": kids}, st.lists(anykid, min_size=1, max_size=3)),
         st.builds(lambda c: {"a": "TSFR", "child": c}, anykid),
         st.builds(lambda c: {"a": "Decorator", "child": c}, extkid),
         st.builds(lambda c, n, g: {"a": "Tagger", "child": c, "new": n, "gone": [x for x in g if x not in n]}, extkid, tagset, tagset),
@@ -53,7 +53,9 @@ def node(depth, extended_only=False):
 
 STACK = st.one_of(node(1), node(2), node(3))
 HIST = H.s_history(max_tests=4, with_control=True, test_kinds=("case", "placeholder", "errorholder"), max_ops=26)
-CASE = st.fixed_dictionaries({"stack": STACK, "history": HIST})
+CASE = st.fixed_dictionaries({"stack": STACK, "history": HIST,
+                              # several tests may share an id (id_mod) and may be the very same object reported again (reuse)
+                              "id_mod": st.sampled_from([99, 99, 99, 2, 1]), "reuse": st.booleans()})
 
 
 def build(n, path, targets, tbts):
@@ -150,6 +152,8 @@ def run_case(spec):
     tbt_models = [H.TagModel() for _ in tbts]      # the reporter's tags plus what Taggers on the path add per test
     tbt_seen = [[] for _ in tbts]                  # per test: (tags at outcome, tags at stopTest)
 
+    made = {}
+
     def each_model(fn):
         for m in tbt_models:
             fn(m)
@@ -171,7 +175,11 @@ def run_case(spec):
                 now = H.ts(op["t"])
                 r.time(now)
             elif k == "startTest":
-                cur = H.make_test(op["i"], op["tk"])
+                key = (op["i"] % spec.get("id_mod", 99), op["tk"])
+                if spec.get("reuse") and key in made:
+                    cur = made[key]
+                else:
+                    cur = made[key] = H.make_test(key[0], op["tk"])
                 r.startTest(cur)
                 tags.start_test()
                 for (r_, calls_, path_), m in zip(tbts, tbt_models):
@@ -253,6 +261,8 @@ def run_case(spec):
                             data = b"".join(c.iter_bytes())
                             if name not in det or det[name][2] != data:
                                 vs.append(V("richest-protocol", "detail-changed", "detail %r arrived as %r" % (name, det.get(name))))
+                        if set(det) != set(sent_details):
+                            vs.append(V("richest-protocol", "detail-names", "%s: details %r were sent, %r arrived" % (wname, sorted(sent_details), sorted(det))))
                 elif info["err"] is not None:
                     if ctx.get("err") is not info["err"] and not (ctx.get("details") and "traceback" in ctx["details"]):
                         vs.append(V("richest-protocol", "err-lost", "%s: exc_info not delivered" % wname))
@@ -295,6 +305,13 @@ def run_case(spec):
                                     wt = c.as_text().strip()
                                     if wt and wt not in reason:
                                         vs.append(V("degrade", "skip-detail-text-missing-" + flavour, "text of detail %r not in reason %r" % (name, reason)))
+        if flavour == "ext":
+            # run-level calls reach the target once each
+            for name in ("startTestRun", "stopTestRun"):
+                sent = sum(1 for o in spec["history"]["ops"] if o["op"] == name)
+                got = sum(1 for e in t.events if e[0] == name)
+                if got != sent:
+                    vs.append(V("delivery", "%s-count" % name, "%d %s calls were made, target behind %r received %d" % (sent, name, path, got)))
         bad = any(e["kind"] in ("error", "failure") or (e["kind"] == "uxsuccess" and flavour in ("py26", "ext", "real", "py27")) for e in reported)
         # the run may have been restarted: only assert when the last startTestRun precedes every bad outcome
         ops = spec["history"]["ops"]
